@@ -54,6 +54,7 @@ fn uid(tcx: TyCtxt<'_>, did: DefId) -> String {
 
 struct Cx<'a, 'tcx> {
     tcx: TyCtxt<'tcx>,
+    owner: DefId,
     body: &'a Body<'tcx>,
     foreign_enums: &'a std::cell::RefCell<BTreeMap<String, DefId>>,
 }
@@ -145,6 +146,28 @@ impl<'a, 'tcx> Cx<'a, 'tcx> {
                         esc(&uid(self.tcx, *did)),
                         esc(&format!("{:?}", args))
                     );
+                }
+                // named constants of struct type (e.g. a Duration bound): record their evaluated value
+                if let mir::Const::Unevaluated(..) = c.const_ {
+                    if matches!(ty.kind(), ty::Adt(..)) {
+                        let te = ty::TypingEnv::post_analysis(self.tcx, self.owner);
+                        if let Ok(val) = c.const_.eval(self.tcx, te, c.span) {
+                            let mut evs = format!("{:?}", val);
+                            if let mir::ConstValue::Indirect { alloc_id, offset } = val {
+                                if let Some(mem) = self.tcx.try_get_global_alloc(alloc_id).and_then(|g| match g {
+                                    mir::interpret::GlobalAlloc::Memory(m) => Some(m),
+                                    _ => None,
+                                }) {
+                                    let a = mem.inner();
+                                    let start = offset.bytes_usize();
+                                    let end = a.len().min(start + 64);
+                                    let bytes = a.inspect_with_uninit_and_ptr_outside_interpreter(start..end);
+                                    evs = format!("bytes:{}", bytes.iter().map(|b| format!("{:02x}", b)).collect::<String>());
+                                }
+                            }
+                            extra = format!(",\"ev\":{}", esc(&evs));
+                        }
+                    }
                 }
                 format!(
                     "{{\"k\":\"const\",\"ty\":{},\"v\":{}{}}}",
@@ -340,6 +363,7 @@ fn dump<'tcx>(tcx: TyCtxt<'tcx>, krate: &str) {
         let path = tcx.def_path_str(did);
         let cx = Cx {
             tcx,
+            owner: did,
             body,
             foreign_enums: &foreign_enums,
         };
